@@ -42,6 +42,7 @@ func c18Alphabet() []optLetter {
 var c18Exprs = []string{
 	"a == 1", "a == 2", "a == 3", "a == 42", "a == 0", "a == `a`", "a == ``", "a is empty", "a != 1", "ja == 2", "A == 1", "m.c == 1", "m.c != 1", "m.b == 1", "m.c is empty",
 	"any m as k, v { v == 1 }", "all m as k { k != `b` }", "w.x == 1", "w == 1", "`x` in w", "a == 1 or zz == 0", "not (a == 42)", "l.0 == 1", "any l as x { x == 42 }", "zz matches `a`",
+	"w.c == 1", "w.c != 1", "w.c is empty", "any l as x { x == 1 }", "all l as i, x { x == 1 or x == 42 }", "any w as k, v { v == 1 }", "l.0.c == 1",
 }
 
 func c18Docs() []*Node {
@@ -57,6 +58,8 @@ func c18Docs() []*Node {
 		mp(str("a"), NInt(KInt, false, 42), str("w"), one, str("l"), NSlice(TAny, NWrapper(one), NInt(KInt, false, 42))),
 		NPtr(NStruct(F{Name: "A", V: NAny(NWrapper(str("")))}, F{Name: "W", Tag: `bexpr:"w" json:"w" pointer:"w"`, V: NWrapper(mp(str("x"), NWrapper(one)))})),
 		mp(str("a"), str(""), str("m"), mp(str("c"), one)),
+		mp(str("l"), NSlice(TAny, NWrapper(mp(str("x"), one)), NWrapper(one)), str("w"), NWrapper(mp(str("x"), NWrapper(one)))),
+		mp(str("l"), NSlice(NWrapper(one).T, NWrapper(one), NWrapper(NInt(KInt, false, 42))), str("w"), NPtr(NWrapper(mp(str("c"), one)))),
 	}
 }
 
@@ -244,5 +247,10 @@ func c18ASTs() []any {
 		m(OpEq, "1", "w", "x"), m(OpEq, "1", "w"), m(OpIn, "x", "w"),
 		&Bin{Or: true, L: m(OpEq, "1", "a"), R: m(OpEq, "0", "zz")}, &Not{X: m(OpEq, "42", "a")}, m(OpEq, "1", "l", "0"),
 		&Quant{All: false, Sel: []string{"l"}, Mode: BindDefault, Val: "x", Body: m(OpEq, "42", "x")}, m(OpMatches, "a", "zz"),
+		m(OpEq, "1", "w", "c"), m(OpNe, "1", "w", "c"), m(OpEmpty, "", "w", "c"),
+		&Quant{All: false, Sel: []string{"l"}, Mode: BindDefault, Val: "x", Body: m(OpEq, "1", "x")},
+		&Quant{All: true, Sel: []string{"l"}, Mode: BindBoth, Idx: "i", Val: "x", Body: &Bin{Or: true, L: m(OpEq, "1", "x"), R: m(OpEq, "42", "x")}},
+		&Quant{All: false, Sel: []string{"w"}, Mode: BindBoth, Idx: "k", Val: "v", Body: m(OpEq, "1", "v")},
+		m(OpEq, "1", "l", "0", "c"),
 	}
 }
